@@ -94,6 +94,18 @@ def generate(seed, tier="quick"):
             if op == "item":
                 e["key"], e["cop"] = ["str", "k"], qrng.choice(["eq", "le"])
             f["tests"].append({"name": f"test_np{n}", "events": [e]})
+    erng = sub(seed, "example")
+    if erng.random() < 0.15:
+        # a test that drives the public testing helper and checks what it changed against a snapshot of its own
+        f = prog["files"][0]
+        n += 1
+        sid = f"ex{n}"
+        exflags = erng.choice(["create", "create", "create,fix", ""])
+        after = "from inline_snapshot import snapshot\n\ndef test_a():\n    assert 5 == snapshot(5)\n"
+        val = ["dict", [[["str", "test_something.py"], ["str", after]]]] if "create" in exflags else ["dict", []]
+        arg = erng.choice([None, None, V.expr(val), '{"test_something.py": "something else"}'])
+        f["sites"][sid] = {"op": "eq", "place": "direct", "arg": arg, "prev": None}
+        f["tests"].append({"name": f"test_example{n}", "events": [{"t": "cmp", "eid": f"exe{n}", "site": sid, "vals": [val], "style": "assert", "via": "example", "exflags": exflags}]})
     nrng = sub(seed, "nested")
     nested = False
     if nrng.random() < 0.2:
